@@ -154,6 +154,19 @@ Definition back_all (a : ndt) : R val :=
   let* r4 := (match nso with None => Val None | Some n => let* b := dt_from_timestamp_nanos n in Val (Some b) end) in
   Val (VTup [vo_ndt r1; vo_ndt r2; vo_ndt r3; vo_ndt r4]).
 
+(** the constants: DateTime::<Utc>::UNIX_EPOCH =
+      expect(NaiveDate::from_ymd_opt(1970, 1, 1), "").and_time(NaiveTime::MIN).and_utc(),
+    NaiveDateTime::UNIX_EPOCH = DateTime::UNIX_EPOCH.naive_utc(), MIN_UTC / MAX_UTC =
+    NaiveDateTime::MIN / MAX with offset Utc, NaiveDateTime::MIN / MAX = (NaiveDate::MIN, NaiveTime::MIN) /
+    (NaiveDate::MAX, NaiveTime::MAX) *)
+Definition ts_consts : R val :=
+  let* d := unwrap_r (Date.from_ymd_opt 1970 1 1) in
+  let epoch := mk_ndt d T_MIN in
+  let* t0 := dt_timestamp epoch in
+  let* tmin := dt_timestamp NDT_MIN in let* tmax := dt_timestamp NDT_MAX in
+  Val (VTup [enc_dtz (mk_dtz epoch 0); VInt t0; enc_ndt epoch; enc_dtz (mk_dtz NDT_MIN 0); enc_dtz (mk_dtz NDT_MAX 0);
+             enc_ndt NDT_MIN; enc_ndt NDT_MAX; VInt tmin; VInt tmax]).
+
 Definition run (op : bytes) (args : list val) : val :=
   let i64_1 (f : Z -> val) := match args with [a] => match arg_i64 a with Some z => f z | None => VBad end | _ => VBad end in
   let i64_u32 (f : Z -> Z -> val) := match args with
@@ -205,4 +218,6 @@ Definition run (op : bytes) (args : list val) : val :=
     match args with
     | [a] => match dec_dtz a with Some d => val_of_R enc_sys (systime_from_dt d) | None => VBad end
     | _ => VBad end
+  else if op_is op "ts.consts" then
+    match args with [] => val_of_R (fun v => v) ts_consts | _ => VBad end
   else VErr B"NOOP".
